@@ -1,6 +1,6 @@
 (* wire encoding of the AudioSpecificConfig cases *)
 From Coq Require Import ZArith List Bool.
-From V Require Import Val Bytes C15BitFmt C15Asc RunC15.
+From V Require Import Val Bytes C15BitFmt C15H264 C15Asc C15Pure RunC15.
 Import ListNotations.
 Open Scope Z_scope.
 
@@ -13,12 +13,18 @@ Definition aobs_wellformed (v : val) : bool :=
 
 Definition x_C15_asc_emit (c : val) : val :=
   let e := dec_env c in if asc_wf e then VL [VB (asc_bytes e)] else VL [].
-Definition x_C15_asc_run (c : val) : val := enc_aobs (go_asc (as_bytes (nthv 1 c))).
+Definition x_C15_asc_run (c : val) : val := enc_twice enc_aobs (twice go_asc (as_bytes (nthv 1 c))).
 Definition x_C15_asc_ok (v : val) : val :=
   let c := nthv 0 v in let o := nthv 1 v in
-  vbool (aobs_wellformed o && ok_asc (dec_env (nthv 0 c)) (as_bytes (nthv 1 c)) (dec_aobs o)).
-Definition x_C15_asc_bytes (c : val) : val := enc_aobs (go_asc (as_bytes c)).
-Definition x_C15_asc_total_ok (v : val) : val := vbool (aobs_wellformed (nthv 1 v)).
+  let cfg := as_bytes (nthv 1 c) in
+  vbool (both_wf aobs_wellformed o &&
+         pure_ok aobs_eqb (ok_asc (dec_env (nthv 0 c)) cfg) cfg (dec_twice dec_aobs o)).
+Definition x_C15_asc_bytes (c : val) : val := enc_twice enc_aobs (twice go_asc (as_bytes c)).
+Definition x_C15_asc_total_ok (v : val) : val :=
+  let o := nthv 1 v in
+  vbool (both_wf aobs_wellformed o &&
+         pure_ok aobs_eqb (fun _ => true) (as_bytes (nthv 0 v)) (dec_twice dec_aobs o)).
+Definition x_C15_aac_glue_ok (v : val) : val := vbool (aobs_wellformed (nthv 1 v)).
 
 (* ALS with more than 255 channels: known finding, oracle without the uint8 guard *)
 Definition x_C15_asc_wide_emit (c : val) : val :=
@@ -26,4 +32,6 @@ Definition x_C15_asc_wide_emit (c : val) : val :=
   if asc_wf_gen 65535 e && (255 <=? get e ka_als_chan) then VL [VB (asc_bytes e)] else VL [].
 Definition x_C15_asc_wide_ok (v : val) : val :=
   let c := nthv 0 v in let o := nthv 1 v in
-  vbool (aobs_wellformed o && ok_asc_wide (dec_env (nthv 0 c)) (as_bytes (nthv 1 c)) (dec_aobs o)).
+  let cfg := as_bytes (nthv 1 c) in
+  vbool (both_wf aobs_wellformed o &&
+         pure_ok aobs_eqb (ok_asc_wide (dec_env (nthv 0 c)) cfg) cfg (dec_twice dec_aobs o)).
